@@ -208,21 +208,29 @@ func snpDeclaredPages(img []byte) (pages uint64) {
 	return pages
 }
 
-// tdxBigSection says whether the image's TDVF metadata (as the harness generated it) declares a
-// TD-HOB/TempMem memory size beyond the base budget.
-func tdxBigSection(l *fwgen.Layout) string {
-	if l == nil {
-		return ""
+// privateSizeCap: TD-HOB / TempMem memory sizes above this are the recorded finding class
+// C08/tdx/*-size-unbounded (the implementation allocates about three times the TD-HOB size).
+const privateSizeCap = 1 << 20
+
+// tdxBigSection says whether the image's TDVF metadata - as a tolerant harness-side parse of the image
+// itself sees it, which may differ from what the generator planted when a hostile count makes the
+// parser read section records out of the image body - declares a TD-HOB/TempMem memory size beyond
+// the cap, and how large the largest one is.
+func tdxBigSection(img []byte) (kind string, largest uint64) {
+	secs, ok := fwgen.ParseTdxSections(img)
+	if !ok {
+		return "", 0
 	}
-	for _, s := range l.Tdx {
-		if (s.Type == fwgen.TdxTDHOB || s.Type == fwgen.TdxTempMem) && s.MemorySize > baseBudget/2 {
+	for _, s := range secs {
+		if (s.Type == fwgen.TdxTDHOB || s.Type == fwgen.TdxTempMem) && s.MemorySize > privateSizeCap && s.MemorySize > largest {
+			largest = s.MemorySize
+			kind = "tempmem"
 			if s.Type == fwgen.TdxTDHOB {
-				return "td-hob"
+				kind = "td-hob"
 			}
-			return "tempmem"
 		}
 	}
-	return ""
+	return kind, largest
 }
 
 // verdict applies the totality / resource oracle. It returns false when the case must stop.
@@ -319,9 +327,18 @@ func TestHostileImages(t *testing.T) {
 		}
 		img, muts, l := fwgen.GenHostile(t, o)
 		r := genReq(t)
+		bigKind, largest := tdxBigSection(img)
+		if largest > 64<<20 && !unboundedSizes {
+			// the image itself (e.g. a hostile section count that makes the parser read records from the
+			// image body) declares a private memory size of the recorded finding class whose cases end in
+			// out-of-memory deaths or watchdog expiries: not executed, counted
+			excluded++
+			ev.Case(name, false, "", "excluded:known-finding-class", nil)
+			return
+		}
 		res := isolate.RunConfirmed("fw", encode(r, img), uint64(baseBudget)+perByte*uint64(len(img)), 20000)
 		what := fmt.Sprintf("hostile image (%d bytes, planted %v, sev sections %+v ov %s, tdx sections %+v) opts %+v", len(img), muts, l.Sev, ovStr(l.Ov), l.Tdx, r)
-		if !verdict(t, r, img, res, tdxBigSection(l), what) {
+		if !verdict(t, r, img, res, bigKind, what) {
 			return
 		}
 		if res.CPUms > 1000 {
@@ -401,8 +418,13 @@ func TestRandomBytes(t *testing.T) {
 			copy(img[off:], w)
 		}
 		r := genReq(t)
+		bigKind, largest := tdxBigSection(img)
+		if largest > 64<<20 && !unboundedSizes {
+			excluded++
+			return
+		}
 		res := isolate.RunConfirmed("fw", encode(r, img), uint64(baseBudget)+perByte*uint64(len(img)), 20000)
-		if !verdict(t, r, img, res, "", fmt.Sprintf("random image (%d bytes) opts %+v", len(img), r)) {
+		if !verdict(t, r, img, res, bigKind, fmt.Sprintf("random image (%d bytes) opts %+v", len(img), r)) {
 			return
 		}
 		lb := "<=64"
@@ -455,9 +477,9 @@ func TestRegressions(t *testing.T) {
 		{"tdx-count-wrap", req{Entry: "tdx.MRTD"}, mk(func(l *fwgen.Layout) { l.Ov.TdxCount = u32(0x08000001); l.Ov.TdxLen = u32(48) }), ""},
 		{"tdx-count-wrap-regions", req{Entry: "ovmf.Regions", Mode: 1}, mk(func(l *fwgen.Layout) { l.Ov.TdxCount = u32(0x08000000); l.Ov.TdxLen = u32(16) }), ""},
 		// recorded findings (known_findings.json): TD-HOB / TempMem memory sizes are used unchecked
-		{"known/tempmem-64MiB-measure-all", req{Entry: "tdx.MRTD", Mode: 1}, mk(func(l *fwgen.Layout) { l.Tdx[2].MemorySize = 64 << 20 }), "tempmem"},
-		{"known/td-hob-64MiB", req{Entry: "ovmf.Regions", Mode: 0}, mk(func(l *fwgen.Layout) { l.Tdx[1].MemorySize = 64 << 20 }), "td-hob"},
-		{"known/td-hob-2^63", req{Entry: "tdx.MRTD", Mode: 0}, mk(func(l *fwgen.Layout) { l.Tdx[1].MemorySize = 1 << 63 }), "td-hob"},
+		{"known/tempmem-64MiB-measure-all", req{Entry: "tdx.MRTD", Mode: 1}, mk(func(l *fwgen.Layout) { l.Tdx[2].MemoryBase, l.Tdx[2].MemorySize = 0x20000000, 64<<20 }), "tempmem"},
+		{"known/td-hob-64MiB", req{Entry: "ovmf.Regions", Mode: 0}, mk(func(l *fwgen.Layout) { l.Tdx[1].MemoryBase, l.Tdx[1].MemorySize = 0x10000000, 64<<20 }), "td-hob"},
+		{"known/td-hob-2^63", req{Entry: "tdx.MRTD", Mode: 0}, mk(func(l *fwgen.Layout) { l.Tdx[1].MemoryBase, l.Tdx[1].MemorySize = 1<<32, 1<<63 }), "td-hob"},
 	}
 	for _, c := range cases {
 		res := isolate.RunConfirmed("fw", encode(c.r, c.img), uint64(baseBudget)+perByte*uint64(len(c.img)), 20000)
